@@ -85,6 +85,18 @@ func (r *runner) do(op Op) (class int) {
 	for _, a := range res {
 		m := r.w.mods[a.mod]
 		post := m.view()
+		if op.K == "slashpast" {
+			// a staking-side cut of redelegated stake: booked as a loss, like the validator's own slash
+			for _, rec := range post.Recs {
+				if b := r.book[a.mod][rec.A]; b != nil {
+					if d0, d1 := r.pre[a.mod].delegated(rec.A), post.delegated(rec.A); d1.Cmp(d0) < 0 {
+						b.losses.Add(b.losses, new(big.Int).Sub(d0, d1))
+						b.expected.Sub(b.expected, new(big.Int).Sub(d0, d1))
+						b.events++
+					}
+				}
+			}
+		}
 		m.steps = append(m.steps, fmt.Sprintf("(%s, %d, %s)", a.coqOp, a.class, post.deltas(r.pre[a.mod])))
 		m.nsteps++
 		r.rep.Count("op=" + op.K + fmt.Sprintf("/class=%d", a.class))
@@ -157,6 +169,13 @@ func (r *runner) do(op Op) (class int) {
 		}
 		r.pre[a.mod] = post
 		class = a.class
+	}
+	if op.K == "block" {
+		for _, st := range r.w.statusSteps() {
+			for _, m := range r.w.mods {
+				m.steps = append(m.steps, st)
+			}
+		}
 	}
 	if op.K != "block" && op.K != "slashval" && len(res) == 1 {
 		// the validators are shared: what this operation did to them is an environment step for the other modules
@@ -233,7 +252,7 @@ func main() {
 			b, _ := json.MarshalIndent(History{Seed: 1000 + int64(i), Modules: []string{"eth", "bsc"}, Ops: sc}, "", " ")
 			name := []string{"A-C13-1-withdraw-after-maturity", "B-C13-1-withdraw-before-maturity", "C-C13-2-add-delegate-after-removal",
 				"D-validator-slashed-then-redelegate-removal-withdraw", "E-two-live-batches-older-executed",
-				"F-export-import-with-offline-oracles", "H-edit-bridger-to-offline-oracles-bridger", "I-power-cap-boundary"}[i]
+				"F-export-import-with-offline-oracles", "H-edit-bridger-to-offline-oracles-bridger", "I-power-cap-boundary", "J-C13-3-penalty-exceeds-what-staking-left", "K-jail-redelegate-past-infraction-slash"}[i]
 			lib.Must(os.WriteFile(filepath.Join(corpusDir, name+".json"), b, 0o644))
 		}
 	}
@@ -443,5 +462,28 @@ func scripted() [][]Op {
 	}
 	ib = append(ib, Op{K: "block"}, Op{K: "gov", M: 0, L: []int{1, 2, 3, 4, 5, 6}}, Op{K: "gov", M: 0, L: []int{0, 2, 3, 4, 6}},
 		Op{K: "gov", M: 0, L: []int{2, 3, 4, 6}}, Op{K: "block"})
-	return [][]Op{a, b, c, d, e, f, h, ib}
+	// J: slash fraction 1.0; oracle 3 (validator 0) misses oracle set 1 and is penalised; staking slashes validator 0 by
+	//    5 %; governance removes oracle 3; after maturity 9500 FX are there, the penalty is 10000 FX of recorded stake:
+	//    the withdrawal is refused for ever (finding C13-3)
+	j := setup()
+	j[nOracles] = Op{K: "params", M: 0, P: []string{fx(10000), "10", "1000000000000000000", "2"}}
+	j = append(j, confirmAll(1, 3)...)
+	j = append(j, Op{K: "block"}, Op{K: "block"}, Op{K: "block"})
+	j = append(j, confirmAll(2, 3)...)
+	j = append(j, Op{K: "slashval", M: 0, V: 0, Amt: "50000000000000000"}, Op{K: "gov", M: 0, L: []int{0, 1, 2, 4, 5, 6}}, Op{K: "block"},
+		Op{K: "block", Dt: mature}, Op{K: "block"}, Op{K: "unbond", M: 0, A: 3}, Op{K: "block"}, Op{K: "unbond", M: 0, A: 3})
+	// K: staking-side events around the life cycle: validator 1 is jailed and leaves the bonded set; oracle 1 (on it)
+	//    re-delegates away (entry ends with the validator's own unbonding), oracle 4 (on it) is removed by governance;
+	//    validator 0 is slashed for an infraction two blocks back, which cuts the fresh unbonding entry of oracle 0 and the
+	//    redelegated stake of oracle 3; everybody who was removed withdraws what is left after maturity
+	k := setup()
+	k = append(k, confirmAll(1, -1)...)
+	k = append(k, Op{K: "jail", V: 1}, Op{K: "block"}, Op{K: "redel", M: 0, A: 1, V: 2}, Op{K: "gov", M: 0, L: []int{0, 1, 2, 3, 5, 6}},
+		Op{K: "redel", M: 0, A: 3, V: 2}, Op{K: "block"})
+	k = append(k, confirmAll(2, 4)...)
+	k = append(k, Op{K: "gov", M: 0, L: []int{1, 2, 3, 5, 6}}, Op{K: "block"})
+	k = append(k, confirmAll(3, 0)...)
+	k = append(k, Op{K: "slashpast", V: 0, Amt: "50000000000000000", N: 2}, Op{K: "block"}, Op{K: "unjail", V: 1}, Op{K: "block"},
+		Op{K: "block", Dt: mature}, Op{K: "block"}, Op{K: "unbond", M: 0, A: 4}, Op{K: "unbond", M: 0, A: 0}, Op{K: "block"})
+	return [][]Op{a, b, c, d, e, f, h, ib, j, k}
 }
